@@ -441,6 +441,11 @@ func runC11(cfg *runCfg) (*Summary, error) {
 	for i := 0; i < nProg; i++ {
 		o := genOpts{signals: true, loops: true, conds: true, switches: true, ctxvars: true, floats: false, userFns: false}
 		j := genJob(rng, o, 3+rng.intn(5), 3, sum.Distribution)
+		// D44: a JSON number that does not convert to its destination (a negative one
+		// into an unsigned field) makes strconv allocate an error value inside
+		// vector.Node.Uint although the decode succeeds (known finding); the documents
+		// of the main stream carry non-negative numbers only
+		stripMinus(j.doc)
 		// D26: default(x) with a Go-typed argument allocates (known finding); keep it out of the main stream
 		if containsGoTypedDefault(j.Prog) {
 			sum.Distribution["skipped: default() with Go-typed argument (known finding D26)"]++
@@ -545,6 +550,18 @@ func runC11(cfg *runCfg) (*Summary, error) {
 		}
 	}
 	return sum, nil
+}
+
+func stripMinus(v *JV) {
+	if v == nil {
+		return
+	}
+	if v.K == "num" {
+		v.T = strings.TrimPrefix(v.T, "-")
+	}
+	for _, x := range v.Xs {
+		stripMinus(x)
+	}
 }
 
 func containsGoTypedDefault(p string) bool {
